@@ -293,7 +293,9 @@ def kde_multivariate(events_x, events_y, xout=None, yout=None, bw=None):
                                          events_y.flatten()],
                                    var_type='cc', bw=bw)
 
-    density = estimator_ly.pdf(positions)
+    # Pass the positions with shape (N, 2). With shape (2, N), statsmodels
+    # cannot tell coordinates from points for exactly two positions.
+    density = estimator_ly.pdf(positions.T)
     return density.reshape(xout.shape)
 
 
